@@ -1469,8 +1469,8 @@ Proof.
   eapply Hfc; [eapply get_ctx_in; eauto|eauto].
 Qed.
 
-Lemma finalize_invoice_fresh w s c :
-  Fresh w -> Fresh (fst (finalize_invoice w s c)) /\ child_le w (fst (finalize_invoice w s c)).
+Lemma finalize_invoice_fresh w s ttl c :
+  Fresh w -> Fresh (fst (finalize_invoice w s ttl c)) /\ child_le w (fst (finalize_invoice w s ttl c)).
 Proof.
   intros Hf. unfold finalize_invoice. destruct (negb c); cbn [fst]; [split; [exact Hf|apply child_le_refl]|].
   destruct (find _ _); cbn [fst]; [|split; [exact Hf|apply child_le_refl]].
@@ -1500,8 +1500,8 @@ Proof.
     destruct (process_invoice w slate ttl src p tip pres km); exact H.
   - destruct (get_ctx w slate); cbn [fst]; [|split; [exact Hf|apply child_le_refl]].
     destruct (check_ttl w ttl) as [[]|e|q]; cbn [fst]; try (split; [exact Hf|apply child_le_refl]).
-    pose proof (finalize_invoice_fresh w slate crypto_ok Hf).
-    destruct (finalize_invoice w slate crypto_ok); exact H.
+    pose proof (finalize_invoice_fresh w slate ttl crypto_ok Hf).
+    destruct (finalize_invoice w slate ttl crypto_ok); exact H.
 Qed.
 
 Lemma fresh_empty : Fresh empty_wallet.
@@ -1965,6 +1965,47 @@ Proof.
            congruence.
         -- apply IH.
 Qed.
+
+(** C17 (the [fix:] for the issuer of an invoice): a successful finalize of an invoice whose reply
+    carries a cutoff leaves the issuer's entry with a cutoff — its own if it had one, the
+    reply's otherwise — so the expiry step sees it like the payer's entry. *)
+Lemma adopt_ttl_key t ttl :
+  t_parent (adopt_ttl t ttl) = t_parent t /\ t_id (adopt_ttl t ttl) = t_id t
+  /\ t_type (adopt_ttl t ttl) = t_type t /\ t_conf (adopt_ttl t ttl) = t_conf t
+  /\ t_slate (adopt_ttl t ttl) = t_slate t.
+Proof. unfold adopt_ttl. destruct (t_ttl t); [repeat split|]. destruct (ttl =? 0); repeat split. Qed.
+
+Lemma adopt_ttl_ttl t ttl :
+  ttl <> 0 -> t_ttl (adopt_ttl t ttl) = Some (match t_ttl t with Some e => e | None => ttl end).
+Proof.
+  intros H. unfold adopt_ttl. destruct (t_ttl t) eqn:E; [exact E|].
+  destruct (N.eqb_spec ttl 0) as [F|_]; [contradiction|reflexivity].
+Qed.
+
+Lemma finalize_invoice_adopts_cutoff w s ttl c w' :
+  finalize_invoice w s ttl c = (w', Ok tt) -> ttl <> 0 ->
+  exists t t',
+    find (fun t => optN_eqb (t_slate t) (Some s) && ttype_eqb (t_type t) TReceived) (w_log w) = Some t
+    /\ get_tx (w_log w') (t_parent t) (t_id t) = Some t'
+    /\ t_type t' = TReceived /\ t_conf t' = t_conf t
+    /\ t_ttl t' = Some (match t_ttl t with Some e => e | None => ttl end).
+Proof.
+  intros H Hn. unfold finalize_invoice in H. destruct (negb c); [discriminate|].
+  destruct (find _ (w_log w)) as [t|] eqn:Ef; [|discriminate].
+  inversion H; subst w'; clear H.
+  destruct (adopt_ttl_key t ttl) as (K1 & K2 & K3 & K4 & K5).
+  exists t, (set_excess (adopt_ttl t ttl)). split; [reflexivity|].
+  split.
+  { cbn [w_log del_ctx with_ctxs with_files with_log]. rewrite get_save_tx.
+    assert (E : tkey_eqb (set_excess (adopt_ttl t ttl)) (t_parent t) (t_id t) = true).
+    { apply tkey_eqb_iff. cbn [set_excess t_parent t_id]. split; assumption. }
+    now rewrite E. }
+  apply find_some in Ef as [_ Ef]. apply andb_true_iff in Ef as [_ Et].
+  cbn [set_excess t_type t_conf t_ttl]. rewrite K3, K4.
+  split; [destruct (t_type t); try discriminate; reflexivity|]. split; [reflexivity|].
+  now apply adopt_ttl_ttl.
+Qed.
+
 
 (** a log entry that counts as settled: confirmed and not marked reverted *)
 Definition settled (t : trec) : Prop := t_conf t = true /\ t_type t <> TReverted.
